@@ -358,13 +358,15 @@ func runServer(in input) lib.Case {
 		case "timerfire":
 			if !timerGate.WaitHit(10 * time.Second) {
 				scenarioErr = fmt.Sprintf("macro %d: removal timer never fired", i)
+				timerGate.Release()
+			} else {
+				timerHeld = true
 			}
-			timerHeld = true
 		case "timerrelease":
 			timerGate.Release()
 			timerHeld = false
 			if firstClose != nil {
-				closeTimedOut = !waitCh(firstClose.done, 3*time.Second)
+				closeTimedOut = !waitCh(firstClose.done, 5*time.Second)
 			}
 		case "close":
 			if firstClose != nil {
@@ -400,10 +402,10 @@ func runServer(in input) lib.Case {
 				atomic.StoreInt32(&flag, 1)
 				if startHeld {
 					// every call is inside Close() before Start() is allowed to pick up the signal
-					waitStack(3*time.Second, inClose+sv.Barrier-1, "onet/v3.(*Server).Close(")
+					waitStack(5*time.Second, inClose+sv.Barrier-1, "onet/v3.(*Server).Close(")
 					startGate.Release()
 				}
-				closeTimedOut = !waitCh(firstClose.done, 3*time.Second)
+				closeTimedOut = !waitCh(firstClose.done, 5*time.Second)
 				continue
 			}
 			inStore := countStack("(*treeStorage).Close", "sync.(*WaitGroup).Wait")
@@ -420,12 +422,12 @@ func runServer(in input) lib.Case {
 					scenarioErr = fmt.Sprintf("macro %d: Close never reached the tree store", i)
 				}
 			} else {
-				ok := waitCh(firstClose.done, 3*time.Second)
+				ok := waitCh(firstClose.done, 5*time.Second)
 				closeTimedOut = !ok
 				if ok && !sv.Concurrent {
 					for k := 1; k < sv.Closes; k++ {
 						x := startOp("close-again", doClose)
-						waitCh(x.done, 3*time.Second)
+						waitCh(x.done, 5*time.Second)
 					}
 				}
 			}
@@ -446,7 +448,7 @@ func runServer(in input) lib.Case {
 		case "startrelease":
 			if hold != nil {
 				close(hold.release)
-				waitCh(heldStart.done, 3*time.Second)
+				waitCh(heldStart.done, 5*time.Second)
 			}
 		case "newinstance":
 			x := startOp("create-protocol", func() string {
@@ -456,22 +458,21 @@ func runServer(in input) lib.Case {
 				}
 				return "ok"
 			})
-			waitCh(x.done, 3*time.Second)
+			waitCh(x.done, 5*time.Second)
 		}
-		if scenarioErr != "" {
-			break
-		}
+		// a step the implementation always takes on the unchanged tree that did not happen within its
+		// deadline is an observation: the script goes on (class suffix +cut), nothing is discarded
 	}
 	short := 50 * time.Millisecond
 	if firstClose != nil {
-		d := 3 * time.Second
+		d := 5 * time.Second
 		if closeTimedOut {
 			d = short
 		}
 		o.Returned = waitCh(firstClose.done, d)
 	}
 	for _, x := range ops {
-		d := 3 * time.Second
+		d := 5 * time.Second
 		if x == firstClose || !o.Returned {
 			// already waited for / blocked behind a Close that does not return
 			d = short
@@ -557,8 +558,8 @@ func runServer(in input) lib.Case {
 	}
 	o.Panic = atomic.LoadInt32(&panicked) == 1
 	o.Err = scenarioErr
-	if scenarioErr != "" || firstClose == nil {
-		return lib.Case{Discard: true, Obs: o}
+	if firstClose == nil {
+		panic("server script without close")
 	}
 	ms := make([]string, 0, len(sv.Script))
 	for _, m := range sv.Script {
@@ -602,7 +603,11 @@ func runServer(in input) lib.Case {
 		}
 		coq = fmt.Sprintf("ServerCloseRace %d %d %d %d %d %s", sv.Barrier, len(o.Insts), oks, errs, pending, sobs)
 	}
-	return lib.Case{Coq: coq, Class: serverClass(in), Obs: o, Nontrivial: sv.Runs > 0 || sv.Barrier > 1,
+	class := serverClass(in)
+	if scenarioErr != "" {
+		class += "+cut"
+	}
+	return lib.Case{Coq: coq, Class: class, Obs: o, Nontrivial: sv.Runs > 0 || sv.Barrier > 1,
 		Key: fmt.Sprint(in.TCP, *sv)}
 }
 
